@@ -375,6 +375,10 @@ def run(ctx, config='rel-all'):
                 okv = False
         check('retain', 'the guard restores len := idx - del_bytes (also when the predicate panics)', okv, '', gd[0].get('span'))
     ctx.floor('O4', n4[0], 27, 'byte-shift formula clauses')
+    # ---- R6 comparison / hashing / formatting / indexing / borrow impls hand the whole text to the str impl; R7 compositions
+    from . import forwarding, glue
+    forwarding.check(ctx, config, 'R6', 'string::String', 29)
+    glue.check_string(ctx, config, 'R7')
 
 
 def find_string_agg(t, depth=0):
